@@ -14,7 +14,7 @@
    finds the scenario of DESIGN §6/F4 again (seeded/revert-F4). *)
 From Coq Require Import List Arith NArith Bool.
 Import ListNotations.
-Require Import Aiuti.Case_Batcher Aiuti.BatcherSim Aiuti.Case_Batcher_C04 Aiuti.Case_C09 Aiuti.Batcher Aiuti.BatcherLimits Aiuti.BatcherTime Aiuti.BatcherInv Aiuti.BatcherProps.
+Require Import Aiuti.Case_Batcher Aiuti.BatcherSim Aiuti.Case_Batcher_C04 Aiuti.Case_Batcher_Full Aiuti.Case_C09 Aiuti.Batcher Aiuti.BatcherLimits Aiuti.BatcherTime Aiuti.BatcherInv Aiuti.BatcherProps.
 
 (* Every completion in the trace is either the Cancelled of a caller that a Cancel
    event of the list names, or exactly the outcome the batch function produced for
@@ -96,6 +96,16 @@ Theorem monitor_complete_nochain :
   Case_C09.ok (BCase c evs (map canon (fst (run c evs))) (waiting_callers (snd (run c evs)))) = true.
 Proof. exact ok_C09_complete. Qed.
 Print Assumptions monitor_complete_nochain.
+
+(* The same on ALL event lists, Chain events included (batch_timeout > 0): the monitor of the
+   C09 check accepts the canonical trace of the model for every configuration and every
+   event list — arbitrary cancellations, tasks that call again in the continuation of their
+   answer, cancellations of such tasks.  Proof: Case_Batcher_Full.v. *)
+Theorem monitor_complete :
+  forall c evs, cfg_ok c -> (0 < c_bt c)%N -> Forall ev_ok evs ->
+  Case_C09.ok (BCase c evs (map canon (fst (run c evs))) (waiting_callers (snd (run c evs)))) = true.
+Proof. exact ok_C09_complete_all. Qed.
+Print Assumptions monitor_complete.
 
 (* ---- non-vacuity --------------------------------------------------------------------- *)
 
